@@ -116,62 +116,20 @@ func multiplication(X, Y []byte) (Z []byte) {
 }
 
 func GHASH(H []byte, A []byte, C []byte) (X []byte) {
-
-	calculm_v := func(m, v int) (int, int) {
-		if m == 0 && v != 0 {
-			m = 1
-			v = v * 8
-		} else if m != 0 && v == 0 {
-			v = BlockSize * 8
-		} else if m != 0 && v != 0 {
-			m = m + 1
-			v = v * 8
-		} else { //m==0 && v==0
-			m = 1
-			v = 0
+	// NIST SP 800-38D, 6.4 with the input of 7.1 step 5: GHASH_H(A || 0^v || C || 0^u || [len(A)]_64 || [len(C)]_64),
+	// lengths in bits; an empty A or C contributes no block
+	X = make([]byte, BlockSize)
+	absorb := func(data []byte) {
+		for len(data) > 0 {
+			blk := make([]byte, BlockSize)
+			n := copy(blk, data)
+			data = data[n:]
+			X = multiplication(addition(X, blk), H)
 		}
-		return m, v
 	}
-	m := len(A) / BlockSize
-	v := len(A) % BlockSize
-	m, v = calculm_v(m, v)
+	absorb(A)
+	absorb(C)
 
-	n := len(C) / BlockSize
-	u := (len(C) % BlockSize)
-	n, u = calculm_v(n, u)
-
-	//i=0
-	X = make([]byte, BlockSize*(m+n+2)) //X0 = 0
-	for i := 0; i < BlockSize; i++ {
-		X[i] = 0x00
-	}
-
-	//i=1...m-1
-	for i := 1; i <= m-1; i++ {
-		copy(X[i*BlockSize:i*BlockSize+BlockSize], multiplication(addition(X[(i-1)*BlockSize:(i-1)*BlockSize+BlockSize], A[(i-1)*BlockSize:(i-1)*BlockSize+BlockSize]), H)) //A 1-->m-1 对于数组来说是 0-->m-2
-	}
-
-	//i=m
-	zeros := make([]byte, (128-v)/8)
-	Am := make([]byte, v/8)
-	copy(Am[:], A[(m-1)*BlockSize:])
-	Am = append(Am, zeros...)
-	copy(X[m*BlockSize:m*BlockSize+BlockSize], multiplication(addition(X[(m-1)*BlockSize:(m-1)*BlockSize+BlockSize], Am), H))
-
-	//i=m+1...m+n-1
-	for i := m + 1; i <= (m + n - 1); i++ {
-		copy(X[i*BlockSize:i*BlockSize+BlockSize], multiplication(addition(X[(i-1)*BlockSize:(i-1)*BlockSize+BlockSize], C[(i-m-1)*BlockSize:(i-m-1)*BlockSize+BlockSize]), H))
-	}
-
-	//i=m+n
-	zeros = make([]byte, (128-u)/8)
-	Cn := make([]byte, u/8)
-	copy(Cn[:], C[(n-1)*BlockSize:])
-	Cn = append(Cn, zeros...)
-	copy(X[(m+n)*BlockSize:(m+n)*BlockSize+BlockSize], multiplication(addition(X[(m+n-1)*BlockSize:(m+n-1)*BlockSize+BlockSize], Cn), H))
-
-	//i=m+n+1
-	var lenAB []byte
 	calculateLenToBytes := func(len int) []byte {
 		data := make([]byte, 8)
 		data[0] = byte((len >> 56) & 0xff)
@@ -184,10 +142,11 @@ func GHASH(H []byte, A []byte, C []byte) (X []byte) {
 		data[7] = byte((len >> 0) & 0xff)
 		return data
 	}
-	lenAB = append(lenAB, calculateLenToBytes(len(A))...)
-	lenAB = append(lenAB, calculateLenToBytes(len(C))...)
-	copy(X[(m+n+1)*BlockSize:(m+n+1)*BlockSize+BlockSize], multiplication(addition(X[(m+n)*BlockSize:(m+n)*BlockSize+BlockSize], lenAB), H))
-	return X[(m+n+1)*BlockSize : (m+n+1)*BlockSize+BlockSize]
+	var lenAB []byte
+	lenAB = append(lenAB, calculateLenToBytes(len(A)*8)...)
+	lenAB = append(lenAB, calculateLenToBytes(len(C)*8)...)
+	X = multiplication(addition(X, lenAB), H)
+	return X
 }
 
 // GetY0 生成初始的计数器时钟J0
